@@ -715,9 +715,10 @@ def crosscheck(harnesses, P, ncells, variant='mc-asan', deadline=600.0, tier='qu
         res = {}
         with concurrent.futures.ThreadPoolExecutor(max_workers=NPROC) as ex:
             futs = {}
+            Ph = min(P, 1) if h in ('pool', 'strand') else P  # plain search of these two at P=2 takes tens of minutes per cell
             for mode in ('cache', 'nocache'):
                 for i, c in enumerate(pick):
-                    opts = dict(tier=tier, P=P, S=1, T=1, force_bounds=True, no_cache=(mode == 'nocache'))
+                    opts = dict(tier=tier, P=Ph, S=1, T=1, force_bounds=True, no_cache=(mode == 'nocache'))
                     outp = os.path.join(work, '%s-%s-%d.json' % (h, mode, i))
                     futs[(mode, i)] = ex.submit(lambda c=c, opts=opts, outp=outp: run_chunk(binp, [c], opts, outp, t_end - time.time()))
             for k, f in futs.items():
@@ -725,7 +726,7 @@ def crosscheck(harnesses, P, ncells, variant='mc-asan', deadline=600.0, tier='qu
                 res[k] = r['cells'][0] if r and r.get('cells') else None
         for i, c in enumerate(pick):
             a, b = res[('cache', i)], res[('nocache', i)]
-            row = dict(harness=h, cell=c, P=P)
+            row = dict(harness=h, cell=c, P=Ph)
             if not a or not b or not a.get('exhaustive') or not b.get('exhaustive'):
                 row['status'] = 'incomplete'
             else:
